@@ -8,6 +8,12 @@ CHECKS = {
  "C01": dict(cat="exploration", tech="property-based testing (seeded proptest choice streams + bounded-exhaustive tiny grammar) against an independent reference tokenizer",
    text="Generated pattern sets x inputs compared token-for-token with an independent set-based matcher and longest-match/first-listed tokenizer; plus all pattern pairs over a tiny grammar x all inputs over {a,b,c} up to length 5. Sampling, not proof: exact only for the cases explored.",
    note="trusts regex-syntax's parser (shared with scnr) for the printer round-trip; named-class contents beyond ASCII are measured on the implementation (wording of C08)", ref="5 C01"),
+ "C02": dict(cat="translation_validation", tech="generated programs; per program exact language equality by product exploration (compiled automaton x Brzozowski derivatives of the source patterns) over the alphabet atoms",
+   text="Per generated / enumerated / corpus program the compiled automaton of every mode and lookahead (feature-gated dump) is compared with the derivative automaton of the source patterns for ALL strings: breadth-first exploration of the product over the partition of all 1 112 064 scalar values induced by the scanner's registered classes (own predicate) and the reference classes. Exact per program; programs are sampled.",
+   note="trusts the dump hook (field-by-field copy) and regex-syntax's parser; a shortest witness is re-confirmed by direct simulation and by the set-based matcher, otherwise the run aborts as a harness error", ref="5 C02"),
+ "C03": dict(cat="translation_validation", tech="generated programs; per recorded (before, after) minimizer pair exact language equality by product exploration over the alphabet atoms",
+   text="Every Minimizer::minimize call during the build of each program is recorded (feature-gated); per pair the accepted token-type sets are compared after every string including the empty one (start = state 0 on both sides), and after.states <= before.states.",
+   note="trusts the recorder hook; classes are evaluated with the built scanner's own predicate", ref="5 C03"),
  "C04": dict(cat="exploration", tech="property-based testing against a reference candidate-set oracle (soundness + completeness walk)",
    text="At every scan position the reference candidate set (pattern matches and lookahead condition holds) is computed; every reported token must be a candidate starting at the first position with a non-empty set; includes start offsets via with_offset/set_offset.",
    note="lookahead patterns are non-nullable by construction; offsets on character boundaries", ref="5 C04"),
